@@ -19,7 +19,7 @@ class Query:
                  unwindset=None, unwind=None, checks="mem", arch=None, timeout=900, mem_gb=3.0,
                  witness=True, restrict_fp=None, extra_flags=None, tags=None, function="harness",
                  wit_defines=None, include_src=False, unwind_assert=True, expect="hold",
-                 kf=None, group=None, wit_timeout=None, depth_retry=True):
+                 kf=None, group=None, wit_timeout=None, depth_retry=True, array_fs=False):
         self.name = name
         self.harness = harness
         self.defines = dict(defines or {})
@@ -44,6 +44,7 @@ class Query:
         self.group = group or harness
         self.wit_timeout = wit_timeout
         self.depth_retry = depth_retry
+        self.array_fs = array_fs        # keep CBMC's array field sensitivity (constant propagation through buffers)
 
     def descriptor(self):
         d = {"query": self.name, "harness": self.harness, "defines": self.defines,
@@ -342,7 +343,9 @@ class Engine:
 
     def cbmc_cmd(self, q, gb, witness, scale=1):
         cmd = ["cbmc", gb, "--function", q.function, "--json-ui", "--verbosity", "8", "--trace", "--drop-unused-functions",
-               "--no-array-field-sensitivity", "--object-bits", str(q.tags.get("object_bits", 12))]
+               "--object-bits", str(q.tags.get("object_bits", 12))]
+        if not q.array_fs:
+            cmd.append("--no-array-field-sensitivity")
         if q.arch == "arm":
             cmd += ["--arch", "arm"]
         elif q.arch == "uchar":
@@ -518,7 +521,7 @@ class Engine:
                                           mem_gb=max(q.mem_gb * 2.5, 6), out=outw)
                 rw = parse_cbmc_json(outw)
                 w = {"ok": False, "secs": round(secs, 2)}
-                wf = [f for f in rw["failed"] if "WITNESS" in (f["description"] or "")]
+                wf = [f for f in rw["failed"] if "WITNESS main" in (f["description"] or "")]
                 if to:
                     w["reason"] = "timeout"
                 elif wf:
